@@ -292,7 +292,8 @@ def main(argv=None):
         res = cf.get("result") or {}
         if (j["file"], j["unit"]) in failing_units:
             continue
-        if (j["file"], j["unit"]) in unproved_units and res.get("failed") and "harness_error" not in res:
+        # (if any unit of the check is unproved, no unit's "proved" status stands on its own: callers rest on callee contracts)
+        if unproved_units and res.get("failed") and "harness_error" not in res:
             name = f"{pid}/{j['unit']}/native-contract-check"
             path = os.path.join(ROOT, "replay", pid, hashlib.sha1((name + json.dumps(j.get("params"), default=str)).encode()).hexdigest()[:12] + ".json")
             json.dump({"property": pid, "obligation": name, "clause": res.get("failed"), "status": "native-failure", "backend": "native",
